@@ -119,6 +119,14 @@ class VLoop(asyncio.SelectorEventLoop):
     def time(self) -> float:
         return CLOCK.us / 1e6
 
+    # -- listening sockets are replaced by a recording fake (C20): the protocol factory is kept so
+    #    that connections can be hand-fed, open/close of the "port" is observable -----------------
+    async def create_server(self, protocol_factory, host=None, port=None, **kw):  # type: ignore[override]
+        srv = FakeServer(protocol_factory, host, port)
+        self.fake_servers = getattr(self, "fake_servers", [])
+        self.fake_servers.append(srv)
+        return srv
+
     def _run_once(self) -> None:  # noqa: C901
         sched = self._scheduled
         while sched and sched[0]._cancelled:
@@ -148,6 +156,49 @@ class VLoop(asyncio.SelectorEventLoop):
             if self.after_handle is not None:
                 self.after_handle(h)
         h = None
+
+
+class FakeServer:
+    def __init__(self, factory, host, port) -> None:
+        self.factory, self.host, self.port = factory, host, port
+        self.serving = True        # loop.create_server(start_serving=True) listens at once
+        self.closed = False
+
+    def is_serving(self) -> bool:
+        return self.serving
+
+    async def start_serving(self) -> None:
+        if not self.closed:
+            self.serving = True
+
+    def close(self) -> None:
+        self.serving = False
+        self.closed = True
+
+    async def wait_closed(self) -> None:
+        await asyncio.sleep(0)
+
+
+class FakeTransport:
+    def __init__(self) -> None:
+        self.written = b""
+        self.closed = False
+
+    def write(self, data: bytes) -> None:
+        if not self.closed:
+            self.written += data
+
+    def close(self) -> None:
+        self.closed = True
+
+    def is_closing(self) -> bool:
+        return self.closed
+
+    def abort(self) -> None:
+        self.closed = True
+
+    def get_extra_info(self, name, default=None):
+        return default
 
 
 def run(coro_fn, *args, timeout_steps: int | None = None, **kw):
